@@ -102,7 +102,9 @@ def make_setup(case):
         comm = rnd.choice(["DEFAULT", "FP32"])
     # exact communication: the communication dtype represents every value of the parameter dtype
     exact = (COMM[comm] == "float32" and pdt in ("float32", "bfloat16")) or (COMM[comm] == "bfloat16" and pdt == "bfloat16")
-    return {"pdts": pdts, "groups": groups, "W": W, "G": Gs, "comm": comm, "communicate_params": cp, "cfg": cfg, "shapes": shapes, "T": T, "presence_kind": pk, "presence": pres, "grad_scale": gs, "exact": exact, "grad_kind": rnd.choice(["dense", "dense", "sparse"])}
+    # the default num_trainers_per_group=-1 means "the whole world is one group"
+    g_arg = -1 if (Gs == W and rnd.random() < 0.5) else Gs
+    return {"G_arg": g_arg, "pdts": pdts, "groups": groups, "W": W, "G": Gs, "comm": comm, "communicate_params": cp, "cfg": cfg, "shapes": shapes, "T": T, "presence_kind": pk, "presence": pres, "grad_scale": gs, "exact": exact, "grad_kind": rnd.choice(["dense", "dense", "sparse"])}
 
 
 def _grads(torch, G, S, seed, t):
@@ -142,7 +144,7 @@ def rank_program(ds, torch, S, seed, rank, world, with_twin):
     dt = getattr(torch, cfg["param_dtype"])
     init = init_params(torch, G, S, seed)
     params = [torch.nn.Parameter(p.detach().clone()) for p in init]
-    opt = G.build_optimizer(ds, torch, cfg, params, S.get("groups"), distributed_config=ddp_config(ds, S["comm"], S["G"], S["communicate_params"]))
+    opt = G.build_optimizer(ds, torch, cfg, params, S.get("groups"), distributed_config=ddp_config(ds, S["comm"], S.get("G_arg", S["G"]), S["communicate_params"]))
     twin_p = twin = None
     if with_twin:
         twin_p = [torch.nn.Parameter(p.detach().clone()) for p in init]
@@ -286,7 +288,7 @@ def run_case(case):
 
         return c06_gloo.run(case, S)
     counters = {"evals": 0, "absent_params_checked": 0, "replica_comparisons": 0, "serial_bitwise_steps": 0, "rounding_model_steps": 0, "owner_updates_compared": 0, "collectives_logged": 0, "group_creations_logged": 0, "steps_with_starved_rank": 0, "set_interleavings": []}
-    desc = {"pdts": S.get("pdts"), "W": S["W"], "G": S["G"], "comm": S["comm"], "communicate_params": S["communicate_params"], "cfg": S["cfg"], "shapes": S["shapes"], "presence_kind": S["presence_kind"], "presence": S["presence"], "T": S["T"]}
+    desc = {"pdts": S.get("pdts"), "num_trainers_per_group": S.get("G_arg", S["G"]), "W": S["W"], "G": S["G"], "comm": S["comm"], "communicate_params": S["communicate_params"], "cfg": S["cfg"], "shapes": S["shapes"], "presence_kind": S["presence_kind"], "presence": S["presence"], "T": S["T"]}
     # block geometry (param index, shape, strides, offset) keyed by block id, from a public-constructor serial Distributor
     from distributed_shampoo.utils.shampoo_distributor import Distributor
 
